@@ -62,11 +62,18 @@ func (r *c14Ref) copyOf() *c14Ref {
 
 // c14Val: a value of symbolic kind (nil, int with symbolic content, pointer, nested map[string]any). The kind is a lazily
 // forked choice: the store never looks into values, so it stays unforked unless something does.
+var c14Base []any
+
 func c14Val(label string) any {
 	k := vNondet[int](label + ".kind")
-	vAssume(0 <= k && k < 4)
+	vAssume(0 <= k && k < 6)
+	if c14Base == nil {
+		c14Base = []any{1, 2, 3}
+	}
 	// ... or a nested map with a symbolic key of its own: to the store it is a value like any other
-	return vPick(k, nil, vNondet[int](label+".int"), &vTok{id: 5}, map[string]any{vNondet[string](label + ".inner"): 7})
+	return vPick(k, nil, vNondet[int](label+".int"), &vTok{id: 5}, map[string]any{vNondet[string](label + ".inner"): 7},
+		// two views of one backing array that differ in length only: different values all the same
+		c14Base[:2], c14Base[:3])
 }
 
 // c14Agree: the store's observable abstraction equals the reference's
